@@ -53,6 +53,49 @@ pub fn run(args: &[String]) {
             let r = crate::util::slot_seeds_passing_gamma(n, count, &[0, 1, n / 2, n - 1]);
             println!("{:?} in {:?}", r, t0.elapsed());
         }
+        Some("fitscan") => {
+            // signatures (fixed key, message, stream k) whose compressed s2 leaves 0..=8 bits of the body unused
+            use rayon::prelude::*;
+            let n: usize = args[1].parse().unwrap();
+            let from: u64 = args[2].parse().unwrap();
+            let count: u64 = args[3].parse().unwrap();
+            fn scan<V: Variant>(from: u64, count: u64) -> Vec<(u64, i64)> {
+                let (sk, _) = crate::api::key::<V>(0);
+                let l = crate::refmodel::sig_len(V::N) - 41;
+                (from..from + count)
+                    .into_par_iter()
+                    .filter_map(|k| {
+                        let sig = crate::util::with_stream(1_000_000 + k, || V::sign(b"exact fit", &sk));
+                        let sb = V::sig_to_bytes(&sig);
+                        let s2 = crate::refmodel::codec::decompress(&sb[41..], V::N)?;
+                        let slack = 8 * l as i64 - crate::refmodel::codec::bits_of(&s2) as i64;
+                        if slack <= 8 { Some((k, slack)) } else { None }
+                    })
+                    .collect()
+            }
+            let t0 = std::time::Instant::now();
+            let r = if n == 512 { scan::<V512>(from, count) } else { scan::<crate::api::V1024>(from, count) };
+            println!("{:?} in {:?}", r, t0.elapsed());
+        }
+        Some("hzero") => {
+            use rayon::prelude::*;
+            let n: usize = args[1].parse().unwrap();
+            let count: u64 = args[2].parse().unwrap();
+            fn scan<V: Variant>(count: u64) -> Vec<(u64, Vec<usize>, Vec<usize>)> {
+                (0..count)
+                    .into_par_iter()
+                    .filter_map(|s| {
+                        let (_, pk) = V::keygen(crate::util::seed_bytes(s));
+                        let h = V::pk_h(&pk);
+                        let z: Vec<usize> = (0..h.len()).filter(|&i| h[i] == 0).collect();
+                        let top: Vec<usize> = (0..h.len()).filter(|&i| h[i] == 12288).collect();
+                        if z.is_empty() && top.is_empty() { None } else { Some((s, z, top)) }
+                    })
+                    .collect()
+            }
+            let r = if n == 512 { scan::<V512>(count) } else { scan::<crate::api::V1024>(count) };
+            println!("{:?}", r);
+        }
         Some("gammascan") => {
             let n: usize = args[1].parse().unwrap();
             let from: u64 = args[2].parse().unwrap();
